@@ -12,7 +12,7 @@ for f in $D/*.diff; do
     /verif/check $P quick > /verif/build/harmless/${k}_$P.log 2>&1; RC=$?
     [ $RC -ne 0 ] && RES="$RES $P($(grep -m1 -o 'no-failing-input-found\|replay=[^ ]*' /verif/build/harmless/${k}_$P.log | sed 's|replay=/verif/replays/||'))"
   done
-  git -C /repo checkout -- .
+  git -C /repo checkout -- . && git -C /repo clean -fdq rust
   echo "$k: alarms:${RES:- none}   [$(cat $D/$k.txt | cut -c1-100)]"
 done
 (cd /verif/harness && cargo build 2>&1 | tail -1)
